@@ -16,6 +16,10 @@
     (command line, file, the elements, a sibling, another file) x six argument sets: TLC checks RefEqOp and
     NonInterference; compiled with and without the suppressions: every lint's level is what the statement says,
     independently of the other lints; the diagnostics and the AST are otherwise identical.
+    The same cases (one suppression; thorough: two) through the real binary with a capturing generator: same exit
+    status, the generator runs, the request equals the one without suppressions once the allow attributes themselves
+    are cut out (and the attribute counts in front of them lowered); with an erroneous file added both runs exit
+    non-zero with the same error records and start no generator.
 """
 RULE = ("cases = site x placement x arguments enumerated by TLC; distinct = distinct rendered programs + command lines; "
         "non-trivial = a suppression is present")
@@ -35,4 +39,7 @@ def run(ctx):
     ctx.tlc("MC_Lints", "MC_Lints", replay="lints", coverage=False)
     # a program with seven lints of three kinds on four elements x up to two (thorough: three) suppressions at nine places
     ctx.tlc("MC_ManyLints", "MC_ManyLints" if ctx.quick else "MC_ManyLints_thorough", replay="lints", coverage=False)
+    # the same program through the real binary with a capturing generator: exit status, generator request, errors
+    ctx.tlc("MC_ManyLints", "MC_ManyLints_one" if ctx.quick else "MC_ManyLints", replay="lints", coverage=False, env={"VERIF_LINTS_MODE": "request"},
+            label="MC_ManyLints(binary: request, exit status, errors)")
     ctx.tlc("MC_Lints", "MC_Lints_asbuilt", must_pass=False, label="MC_Lints_asbuilt(documents the pinned deviations)", coverage=False)
